@@ -5,7 +5,11 @@ package main
 // implied by the assumption, so an unsat answer on the variant is a proof; a sat answer on the
 // variant means nothing (the full query decides).
 
-import "sort"
+import (
+	"fmt"
+	"os"
+	"sort"
+)
 
 // collectIndexTerms gathers BV64 terms used as array indices plus skolem constants.
 func (e *Engine) collectIndexTerms(ts []*Term) []*Term {
@@ -56,9 +60,37 @@ func (e *Engine) instantiate(f *Term, cands []*Term, limit int) []*Term {
 		}
 		return out
 	case "=>":
+		if hasQuant(f.Args[0]) {
+			return nil
+		}
 		var out []*Term
 		for _, x := range e.instantiate(f.Args[1], cands, limit) {
 			out = append(out, tb.Implies(f.Args[0], x))
+		}
+		return out
+	case "or":
+		// exactly one disjunct carries the (positive) quantifier
+		qi := -1
+		for i, a := range f.Args {
+			if hasQuant(a) {
+				if qi >= 0 {
+					return nil
+				}
+				qi = i
+			}
+		}
+		if qi < 0 {
+			return []*Term{f}
+		}
+		var rest []*Term
+		for i, a := range f.Args {
+			if i != qi {
+				rest = append(rest, a)
+			}
+		}
+		var out []*Term
+		for _, x := range e.instantiate(f.Args[qi], cands, limit) {
+			out = append(out, tb.Or(append(append([]*Term{}, rest...), x)...))
 		}
 		return out
 	case "forall":
@@ -82,13 +114,12 @@ func (e *Engine) instantiate(f *Term, cands []*Term, limit int) []*Term {
 				idx := t.Args[1]
 				if idx == k {
 					direct = true
-				} else if idx.Op == "bvadd" && len(idx.Args) == 2 {
-					if idx.Args[1] == k && !idx.Args[0].open && !seenOff[idx.Args[0]] {
-						seenOff[idx.Args[0]] = true
-						shapes = append(shapes, shape{idx.Args[0]})
-					} else if idx.Args[0] == k && !idx.Args[1].open && !seenOff[idx.Args[1]] {
-						seenOff[idx.Args[1]] = true
-						shapes = append(shapes, shape{idx.Args[1]})
+				} else if idx.open && idx.Sort == k.Sort {
+					// index = off + k with off free of k (decided on the normalised linear form)
+					off := tb.BVBin("bvsub", idx, k)
+					if !off.open && !seenOff[off] {
+						seenOff[off] = true
+						shapes = append(shapes, shape{off})
 					}
 				}
 			}
@@ -178,32 +209,57 @@ func (e *Engine) QueryQF(r *FuncResult, o *Obligation) []*Term {
 		return nil
 	}
 	base := []*Term{o.Cond, goal}
-	cands := e.collectIndexTerms(base)
 	var as []*Term
 	if len(r.ErrGlobals) > 1 {
 		as = append(as, tb.Distinct(r.ErrGlobals...))
 	}
-	for round := 0; round < 2; round++ {
-		as = as[:0]
-		if len(r.ErrGlobals) > 1 {
-			as = append(as, tb.Distinct(r.ErrGlobals...))
-		}
-		for _, f := range facts {
-			if !hasQuant(f) {
-				as = append(as, f)
-				continue
-			}
-			as = append(as, e.instantiate(f, cands, 48)...)
-		}
-		if round == 0 {
-			// second round: indices that the first-round instances introduced
-			more := e.collectIndexTerms(append(append([]*Term{}, as...), base...))
-			if len(more) > 160 {
-				more = more[:160]
-			}
-			cands = more
+	var quant []*Term
+	for _, f := range facts {
+		if hasQuant(f) {
+			quant = append(quant, f)
+		} else {
+			as = append(as, f)
 		}
 	}
+	// rounds: instantiate at the index terms of the goal, then at those the instances introduce;
+	// instances accumulate, every round only uses the candidates that are new
+	seenCand := map[*Term]bool{}
+	haveInst := map[*Term]bool{}
+	var insts []*Term
+	cur := base
+	for round := 0; round < 4; round++ {
+		var fresh []*Term
+		for _, c := range e.collectIndexTerms(cur) {
+			if !seenCand[c] {
+				seenCand[c] = true
+				fresh = append(fresh, c)
+			}
+		}
+		if len(fresh) == 0 {
+			break
+		}
+		if len(fresh) > 60 {
+			fresh = fresh[:60]
+		}
+		var added []*Term
+		for qi, f := range quant {
+			if os.Getenv("GOVC_DEBUG_INST") != "" {
+				fmt.Fprintf(os.Stderr, "INST round %d fact %d: %d fresh cands; fact=%s\n", round, qi, len(fresh), tb.Show(f)[:min(len(tb.Show(f)), 160)])
+			}
+			for _, in := range e.instantiate(f, fresh, 64) {
+				if !haveInst[in] && !in.IsTrue() {
+					haveInst[in] = true
+					added = append(added, in)
+				}
+			}
+		}
+		if len(insts)+len(added) > 1500 {
+			break
+		}
+		insts = append(insts, added...)
+		cur = added
+	}
+	as = append(as, insts...)
 	as = append(as, o.Cond, goal)
 	as = append(e.litFactsFor(as), as...)
 	var out []*Term
